@@ -233,7 +233,14 @@ fn prf_ext(n: u8, input: &[u8], raw: u8) -> Option<AuthenticationExtensionsClien
 
 pub fn check(ctx: &mut Ctx, c: &Case) -> Result<(), String> {
     ctx.eval();
-    let store = RefStore::new(Disc::Full);
+    // the store already holds an imported credential of another RP whose COSE key lists its parameters in numeric label
+    // order (d first): nothing the library renders may depend on the position of a parameter
+    let mut imported = crate::model::util::make_passkey(606, "imported.example", b"c06-imported-credential", Some(b"imported-user"), Some(9), None);
+    imported.key.params.sort_by_key(|(l, _)| match l {
+        coset::Label::Int(i) => *i,
+        _ => 0,
+    });
+    let store = RefStore::with(Disc::Full, vec![imported]);
     let uv = ScriptedUv::new(if c.verified { UvScript::verified() } else { UvScript::present_only() });
     let cfg = AuthCfg { hmac: c.hmac, counter: c.counter, ..Default::default() };
     let auth = cer::build_authenticator(store.clone(), uv, &cfg);
@@ -355,8 +362,35 @@ pub fn check(ctx: &mut Ctx, c: &Case) -> Result<(), String> {
             for pk in store.creds() {
                 sc2.scan_dbg("Debug of a stored passkey", &pk)?;
             }
-            artefacts += sc.renderings + sc2.renderings;
-            bytes += sc.bytes_scanned + sc2.bytes_scanned;
+            // the same account registers again (an authenticator may replace or keep the earlier credential)
+            let again = make_credential::Request {
+                client_data_hash: crate::model::util::sha256(b"again").to_vec().into(),
+                rp: make_credential::PublicKeyCredentialRpEntity { id: site.effective.into(), name: None },
+                user: passkey_types::webauthn::PublicKeyCredentialUserEntity { id: b"c06-user".to_vec().into(), display_name: "d".into(), name: "n".into() },
+                pub_key_cred_params: cer::params(&[-7]),
+                exclude_list: None,
+                extensions: None,
+                options: make_credential::Options { rk: true, up: true, uv: c.uv_req % 3 != 2 },
+                pin_auth: None,
+                pin_protocol: None,
+            };
+            let res3 = block_on(auth.make_credential(again));
+            let mut sc3 = Scanner::new(&stored(&store));
+            match &res3 {
+                Ok(r) => {
+                    sc3.scan("second makeCredential response CBOR", &to_cbor(r)?)?;
+                    sc3.scan_dbg("second makeCredential response", r)?;
+                    sc3.scan("second makeCredential authData", &r.auth_data.to_vec())?;
+                    if let Some(a) = &r.auth_data.attested_credential_data {
+                        if a.key.params.iter().any(|(l, _)| *l == coset::Label::Int(-4)) {
+                            return Err("the attested COSE key of a re-registration carries the private parameter d (label -4)".into());
+                        }
+                    }
+                }
+                Err(e) => sc3.scan_dbg("second makeCredential error", e)?,
+            }
+            artefacts += sc.renderings + sc2.renderings + sc3.renderings;
+            bytes += sc.bytes_scanned + sc2.bytes_scanned + sc3.bytes_scanned;
         }
         _ => {
             let mut auth = auth;
